@@ -39,7 +39,7 @@ S_MORE = [K("k3::S-Switch")]
 S_COMMENT = [K("k3::S-Comment-noninterp"), K("k3::S-Comment-drop"), K("k3::S-Comment-interp")]
 TAL_BASIC = [K("k3::S-Define"), K("k3::S-Define-clauses"), K("k3::S-Condition"), K("k3::S-Content"), K("k3::S-OmitTag"),
              K("k3::S-OmitTag-empty"), K("k3::S-OmitTag-selfclosing"),
-             K("k3::S-Attribute"), K("k3::S-Repeat")]
+             K("k3::S-Attribute"), K("k3::S-Combined"), K("k3::S-Repeat")]
 
 S_TALES = [K("k3::S-Pipe3"), K("k3::S-Not"), K("k3::S-Exists"), K("k3::S-LambdaScope")]
 S_INTERP = [K("k3::S-Interp-text"), K("k3::S-Interp-off"), K("k3::S-Interp-lines")]
@@ -240,10 +240,12 @@ PROPS = {
         "level_text": "For each TAL statement the emitted render code is proved, for all values, all "
                       "child behaviours (HoleC) and all iteration counts, to produce the stream and the "
                       "evaluation trace the language prescribes.",
-        "level_note": K3_NOTE + " Not yet decided: statement combinations on one element and attribute-order independence.",
-        "units": TAL_BASIC + S_MORE + [FRESH],
-        "not_decided": ["combinations of statements on one element (in progress)",
-                        "independence of attribute order (in progress)"],
+        "level_note": K3_NOTE + " Attribute-order independence is decided by complete enumeration over "
+                      "programs (every subset of the statements on one element x permutations: identical "
+                      "emitted code); the combined semantics by the schema with all statements on one element.",
+        "units": TAL_BASIC + S_MORE + [FRESH, U('pyvc.permute', 'unit', 'permute')],
+        "not_decided": ["nesting depth > 1 is covered through HoleC induction and FRESH pairs, not enumerated",
+                        "tal:replace / tal:switch in the combined schema (single-statement schemas only)"],
         "assumptions": K3_ASSUME,
     },
     "C13": {
